@@ -34,7 +34,8 @@ RULE = ('case = (config or composition, seed, operation sequence). non-trivial =
 ASSUMPTIONS = ['twin environments built from the same configuration with the same seed start from identical generator states']
 REQUIRED = {'quick': {'sequences': 60, 'ops': 8000, 'reads.first_after_change': 1500, 'reads.repeated': 1500,
                       'before_reset.checked': 60, 'outer.checked': 500, 'outer.no_representation': 20, 'outer.inner_read_first': 200, 'outer.representation_reassigned': 30,
-                      'stochastic_obs.sequences': 8, 'fresh.deterministic_checked': 1000, 'member_state.sequences': 5}}
+                      'stochastic_obs.sequences': 8, 'fresh.deterministic_checked': 1000, 'member_state.sequences': 5, 'fixed_reset.sequences': 5,
+                      'ops.refused_step': 50}}
 
 
 def op_sequence(rng, n):
@@ -57,6 +58,8 @@ def op_sequence(rng, n):
             ops.append('state')
         elif r < 0.94:
             ops.append('reset')
+        elif r < 0.96:  # a step the environment must refuse, between two reads of the same state
+            ops.extend([('obs', 1), 'bad_step', ('obs', rng.randint(1, 2))])
         else:  # stretch of steps without any read
             ops.extend(('step', rng.randrange(64)) for _ in range(rng.randint(2, 6)))
     return ops
@@ -109,6 +112,16 @@ def run_sequence(ctx, make, label, ops, deterministic_obs, payload):
                 ctx.violation('stateful', 'state.differs_from_functional', f'{where}: stateful state differs from the functional shadow',
                               'seq_case', payload)
                 return features
+        elif op == 'bad_step':
+            outside = [a for a in Action if a not in E.action_space.actions]
+            bad = outside[i % len(outside)] if outside else 'not an action'
+            ok, res = call_real(E.step, bad)
+            ctx.hit('ops.refused_step')
+            features.add('refused_step')
+            if ok:
+                ctx.violation('stateful', 'step.accepts_outside_action', f'{where}: step({bad!r}) was accepted', 'seq_case', payload)
+                return features
+            # nothing happened: same state epoch, the shadow does not move (o and calls stay as they are)
         elif op[0] == 'step':
             acts = E.action_space.actions
             a = acts[op[1] % len(acts)]
@@ -226,16 +239,21 @@ def outer_checks(ctx, make, label, ops, payload, state_ok):
                                       'outer_case', payload)
 
 
-def member_reset_factory(comp_seed):
+def member_reset_factory(comp_seed, fixed=False):
     """composition whose reset function returns random member states (nested boxes, doors of every status, held items):
     states the built-in reset functions never produce, driven through the stateful interface"""
     def make():
         rng = gen.rng_for('C04member', comp_seed)
-        comp = workloads.Composition(rng, force_all_actions=True, dense=(comp_seed % 2 == 0))
+        comp = workloads.Composition(rng, force_all_actions=not fixed, dense=(comp_seed % 2 == 0))
+        if fixed:
+            # every reset returns an equal (not identical) state, observed through a stochastic observation function:
+            # the episode's first observation is still computed anew
+            comp.observation = {'name': 'stochastic_raytracing',
+                                'area': [[comp.area.ymin, comp.area.ymax], [comp.area.xmin, comp.area.xmax]]}
         counter = [0]
 
         def reset(rng=None):
-            counter[0] += 1
+            counter[0] += 0 if fixed and counter[0] else 1
             srng = gen.rng_for('C04member_state', comp_seed, counter[0])
             for _ in range(20):
                 st, _ = comp.member_state(srng)
@@ -244,6 +262,24 @@ def member_reset_factory(comp_seed):
                     return st
             raise RuntimeError('no member state')
         return comp.build(reset)
+    return make
+
+
+def member_ops(k, fixed):
+    if fixed:
+        return [o if i % 7 else 'reset' for i, o in enumerate(op_sequence(gen.rng_for('C04ops', 'fixed', k), 60))]
+    ops = op_sequence(gen.rng_for('C04ops', 'member', k), 60)
+    # many ACTUATE / PICK_N_DROP: boxes (also nested) get opened, doors opened, keys moved
+    return [o if not (isinstance(o, tuple) and o[0] == 'step' and i % 2) else ('step', 6 + (i % 4 == 1)) for i, o in enumerate(ops)]
+
+
+def member_make(payload):
+    factory = member_reset_factory(payload['member_comp'], fixed=payload.get('fixed', False))
+
+    def make():
+        env = factory()
+        env.set_seed(payload['seed'])
+        return env
     return make
 
 
@@ -311,34 +347,23 @@ def run(ctx):
                 continue
             if ctx.out_of_time(0.95):
                 break
-            factory = member_reset_factory(ctx.seed * 31 + k)
             seed = ctx.seed * 1000 + k
-
-            def make(factory=factory, seed=seed):
-                env = factory()
-                env.set_seed(seed)
-                return env
-            ops = op_sequence(gen.rng_for('C04ops', 'member', k), 60)
-            # many ACTUATE / PICK_N_DROP: boxes (also nested) get opened, doors opened, keys moved
-            ops = [o if not (isinstance(o, tuple) and o[0] == 'step' and i % 2) else ('step', 6 + (i % 4 == 1)) for i, o in enumerate(ops)]
-            payload = {'member_comp': ctx.seed * 31 + k, 'seed': seed, 'n_ops': 60, 'k': k}
-            run_sequence(ctx, make, f'member-state composition#{ctx.seed * 31 + k}', ops, False, payload)
-            ctx.hit('sequences')
-            ctx.hit('member_state.sequences')
+            for fixed in (False, True):
+                # fixed: the same composition with a reset function that always returns an equal state, and many resets
+                payload = {'member_comp': ctx.seed * 31 + k, 'seed': seed, 'n_ops': 60, 'k': k, 'fixed': fixed}
+                ops = member_ops(k, fixed)
+                run_sequence(ctx, member_make(payload), f'{"fixed-reset" if fixed else "member-state"} composition#{ctx.seed * 31 + k}',
+                             ops, False, payload)
+                ctx.hit('sequences')
+                ctx.hit('fixed_reset.sequences' if fixed else 'member_state.sequences')
             if {'repeated_read', 'step_without_read'} <= feats:
                 ctx.nontrivial(('comp', k, enc.digest(ops)))
 
 
 def replay(ctx, kind, payload):
     if 'member_comp' in payload:
-        factory = member_reset_factory(payload['member_comp'])
-
-        def make():
-            env = factory()
-            env.set_seed(payload['seed'])
-            return env
-        ops = op_sequence(gen.rng_for('C04ops', 'member', payload['k']), payload['n_ops'])
-        run_sequence(ctx, make, 'member-state composition', ops, False, payload)
+        run_sequence(ctx, member_make(payload), 'member-state composition', member_ops(payload['k'], payload.get('fixed', False)),
+                     False, payload)
         return
     if 'config' in payload:
         data = dict((n, d) for n, _, d in compose.shipped_configs())[payload['config']]
